@@ -162,6 +162,7 @@ type Gen struct {
 	pool    []Op  // every tx ever built (replay pool)
 	swapTo  int   // delegatee of the most recently generated release (0: none)
 	swapPow int64 // and its power
+	swapNow bool  // the next transaction is the compensating delegation (same block: count and sum of the set unchanged)
 	// option documents offered by proposals
 	OptMenu []string
 	Progs   func(g *Gen, v *View, from int) *Op // contract tx generator (set by evm package code)
@@ -174,7 +175,7 @@ type deployed struct {
 	tmpl string
 }
 
-var tmplNames = []string{"counter", "forwarder", "store_log", "reverter", "nested", "touch_and_revert", "suicide", "loop", "invalid", "badjump", "balances", "sink", "context", "creator", "restore", "triple_counter", "store_context", "suicide_caller"}
+var tmplNames = []string{"counter", "forwarder", "store_log", "reverter", "nested", "touch_and_revert", "suicide", "loop", "invalid", "badjump", "balances", "sink", "context", "creator", "restore", "triple_counter", "store_context", "suicide_caller", "prefund_creator"}
 
 // contractTx builds a random deployment or call.
 func (g *Gen) contractTx(v *View, from int, nonce uint64, price *uint256.Int, bal *big.Int) (*rctypes.Trx, string) {
@@ -202,6 +203,8 @@ func (g *Gen) contractTx(v *View, from int, nonce uint64, price *uint256.Int, ba
 		var runtime []byte
 		if name == "creator" {
 			runtime = CreatorRuntime()
+		} else if name == "prefund_creator" {
+			runtime = PrefundCreatorRuntime()
 		} else {
 			runtime = Asm(Programs[name], map[string][]byte{"callee": anyAddr(), "fresh": g.KR.Addr(g.NAcct + 1 + rng.Intn(4))})
 		}
@@ -212,7 +215,7 @@ func (g *Gen) contractTx(v *View, from int, nonce uint64, price *uint256.Int, ba
 		if gas < 120000 {
 			gas = 300000
 		}
-		if name == "creator" {
+		if name == "creator" || name == "prefund_creator" {
 			gas = 900000
 		}
 		return web3.NewTrxContract(g.KR.Addr(from), types.ZeroAddress(), nonce, gas, price, u256(value), Deployer(runtime, int64(rng.Intn(3)))), "contract:deploy:" + name
@@ -227,6 +230,15 @@ func (g *Gen) contractTx(v *View, from int, nonce uint64, price *uint256.Int, ba
 		data = append(word([]byte{byte(rng.Intn(256))}), word([]byte{byte(rng.Intn(4))})...)
 	case 3:
 		data = randBytes(rng, rng.Intn(70))
+	}
+	if c.tmpl == "prefund_creator" && rng.Intn(3) > 0 {
+		// the address this contract's next CREATE will produce (its nonce as the native ledger shows it)
+		n := uint64(1)
+		if a, ok := v.Accts[g.KR.Name(c.addr)]; ok && a.Nonce > 0 {
+			n = uint64(a.Nonce)
+		}
+		data = word(childAddr(c.addr, n))
+		gas = 900000
 	}
 	if rng.Intn(6) == 0 {
 		// a plain transfer to a contract address (executed by the EVM as well)
@@ -314,6 +326,20 @@ func (g *Gen) NextTx(v *View) *Op {
 	if g.Rng.Float64() < g.P.PInvalid {
 		invalid = []string{"nonce+", "nonce-", "gas", "price", "funds", "sig", "chain", "kind", "addrlen"}[g.Rng.Intn(9)]
 	}
+	redistribute := false
+	if g.swapNow && g.swapTo > 0 {
+		// the power released by the previous transaction is bonded again at once, by whoever can afford it
+		g.swapNow = false
+		need := new(big.Int).Add(new(big.Int).Mul(big.NewInt(g.swapPow), E18), new(big.Int).Mul(price.ToBig(), new(big.Int).SetUint64(gas)))
+		off := g.Rng.Intn(g.NAcct)
+		for i := 0; i < g.NAcct; i++ {
+			c := 1 + (off+i)%g.NAcct
+			if FromLimbs(v.Accts[g.acctName(c)].Bal).Cmp(need) >= 0 {
+				from, kind, invalid, redistribute = c, "staking", "", true
+				break
+			}
+		}
+	}
 	fromName := g.acctName(from)
 	acct := v.Accts[fromName]
 	bal := FromLimbs(acct.Bal)
@@ -358,9 +384,27 @@ func (g *Gen) NextTx(v *View) *Op {
 			fmt.Sscanf(names[g.Rng.Intn(len(names))], "a%d", &to)
 		}
 		k := int64(1 + g.Rng.Intn(12))
-		if g.swapTo > 0 && g.Rng.Intn(3) == 0 {
-			// replace a stake that was released a moment ago by one of the same power on the same delegatee
-			to, k = g.swapTo, g.swapPow
+		if g.G.Gov["minValidatorStake"] == "1000000000000000000" {
+			k = int64(1 + g.Rng.Intn(3)) // the family of tiny validators: stakes of power 1..3
+		}
+		if g.swapTo > 0 && (redistribute || g.Rng.Intn(3) == 0) {
+			// replace a stake that was released a moment ago by one of the same power, on the same delegatee or on
+			// another one (the number of validators and the sum of their powers stay what they were)
+			k = g.swapPow
+			var others []int
+			for _, n := range names {
+				o := 0
+				fmt.Sscanf(n, "a%d", &o)
+				if o > 0 && o != g.swapTo {
+					others = append(others, o)
+				}
+			}
+			if len(others) > 0 && g.Rng.Intn(2) == 0 {
+				to = others[g.Rng.Intn(len(others))]
+				tag = "staking:redistribute"
+			} else {
+				to = g.swapTo
+			}
 			g.swapTo = 0
 		}
 		amt := new(big.Int).Mul(big.NewInt(k), E18)
@@ -407,6 +451,7 @@ func (g *Gen) NextTx(v *View) *Op {
 		}
 		if tag == "unstaking" && s.pow > 0 {
 			g.swapTo, g.swapPow = toIdx, int64(s.pow)
+			g.swapNow = g.Rng.Intn(2) == 0
 		}
 		tx = web3.NewTrxUnstaking(g.KR.Addr(from), g.KR.Addr(toIdx), nonce, gas, price, g.KR.HashOf(s.id))
 	case "withdraw":
